@@ -315,10 +315,17 @@ fn draw_reply(sw: &Swarm, w: &World, rng: &mut Rng) -> ReplySpec {
     if sw.fault_adapter && rng.chance(1, 7) && ids.len() > 1 {
         // the honest answer with one poisoned element: everything after it must have no effect
         let id = *rng.pick(&ids);
-        let poison = match rng.below(8) {
+        if rng.chance(1, 6) {
+            return ReplySpec::HonestReversed {
+                max_blocks: sw.max_blocks.max(2),
+                max_next: sw.max_next,
+            };
+        }
+        let poison = match rng.below(10) {
             0 => BlockOffer::Truncated(id, rng.below(200) as u32),
             1 => BlockOffer::Garbage(rng.next_u64(), rng.below(300) as u32),
             2 => BlockOffer::Empty,
+            3 | 4 => BlockOffer::ReplyBlock(rng.below(4) as u8), // the same block twice in one reply
             _ => BlockOffer::Block(id), // duplicate, orphan, stable-only parent or invalid block
         };
         return ReplySpec::HonestPoisoned {
@@ -391,7 +398,10 @@ fn draw_mine(sw: &Swarm, w: &World, rng: &mut Rng) -> Event {
     } else {
         best_net_tip
     };
-    let mutation = if sw.fault_blocks && rng.chance(1, 9) {
+    let mutation = if w.cfg.profile == "C14" && rng.chance(1, 7) {
+        // a header-valid block whose body is rejected: its announced header goes stale
+        *rng.pick(&[Mutation::BadMerkleRoot, Mutation::NoCoinbase, Mutation::DuplicateTx])
+    } else if sw.fault_blocks && rng.chance(1, 9) {
         let real = w.net.real_pow;
         match rng.below(12) {
             0 if real => Mutation::BadNonce,
